@@ -103,6 +103,18 @@ Proof.
       * rewrite C. destruct (has_prefix_crlf (skipn m r)); lia.
 Qed.
 
+Definition starts_lf (r : list N) : bool := match r with 10%N :: _ => true | _ => false end.
+Lemma match_lf : forall (A : Type) (x y : A) r,
+  match r with 10%N :: _ => x | _ => y end = if starts_lf r then x else y.
+Proof.
+  intros. destruct r as [|[|p] r']; try reflexivity. do 4 (destruct p; try reflexivity).
+Qed.
+Lemma starts_lf_true : forall r, starts_lf r = true -> exists r', r = 10%N :: r'.
+Proof.
+  intros r H. destruct r as [|[|p] r']; try discriminate.
+  do 4 (destruct p; try discriminate). now exists r'.
+Qed.
+
 Lemma line_extent_le : forall s, (line_extent s <= length s)%nat.
 Proof.
   induction s as [|a s IH]; cbn [line_extent length]; [lia|].
@@ -131,7 +143,7 @@ Proof.
     destruct (has_prefix_crlf (skipn n s)).
     + replace (Z.of_nat n + 1 + 1) with (Z.of_nat (n + 2)) by lia. rewrite zdrop_nat. reflexivity.
     + replace (Z.of_nat n + 1) with (Z.of_nat (n + 1)) by lia. rewrite zdrop_nat. reflexivity.
-  - destruct (find_nl_none _ E) as [A B]. cbn. rewrite A, B.
+  - destruct (find_nl_none _ E) as [A B]. change (-1 <? 0) with true. cbv iota. rewrite A, B.
     rewrite skipn_all. unfold zlen. reflexivity.
 Qed.
 
@@ -153,14 +165,13 @@ Lemma locate_next_line : forall c ln cur k o, (o < length c)%nat -> (line_extent
   locate (ln + 1) (skipn (line_extent c) c) 0 (skipn (line_extent c) c) (o - line_extent c).
 Proof.
   induction c as [|b r IH]; intros ln cur k o Hl H; [cbn in Hl; lia|].
-  pose proof (line_extent_pos b r) as P.
-  destruct o as [|o']; [lia|]. cbn [length] in Hl.
-  cbn [locate]. cbn [line_extent] in *.
+  destruct o as [|o']; [pose proof (line_extent_pos b r); lia|]. cbn [length] in Hl.
+  cbn [locate]. cbn [line_extent] in *. rewrite !match_lf in *.
   destruct (b =? 10)%N; [cbn; now rewrite Nat.sub_0_r|]. destruct (b =? 13)%N.
-  - destruct r as [|y r']; [cbn; now rewrite Nat.sub_0_r|].
-    destruct y as [|p]; [cbn; now rewrite Nat.sub_0_r|].
-    do 4 (destruct p; try (cbn [skipn]; now rewrite Nat.sub_0_r)).
-    destruct o' as [|o'']; [lia|]. cbn. now rewrite Nat.sub_0_r.
+  - destruct (starts_lf r) eqn:S.
+    + destruct (starts_lf_true _ S) as [r' ->].
+      destruct o' as [|o'']; [lia|]. cbn. now rewrite Nat.sub_0_r.
+    + cbn. now rewrite Nat.sub_0_r.
   - cbn [skipn]. replace (S o' - S (line_extent r))%nat with (o' - line_extent r)%nat by lia.
     apply IH; lia.
 Qed.
@@ -177,7 +188,7 @@ Proof.
   set (s := b :: r) in *. set (e := line_extent s).
   pose proof (line_extent_le s) as Le. pose proof (line_extent_pos b r) as Lp. fold s in Lp. fold e in Le, Lp.
   destruct (Z.leb_spec (pos + Z.of_nat o + 1) (pos + Z.of_nat e)) as [C|C].
-  - rewrite locate_in_line by (fold e; lia). cbn. f_equal; [|lia]. reflexivity.
+  - rewrite locate_in_line by (fold e; lia). cbn. f_equal; try reflexivity; lia.
   - rewrite (locate_next_line s) by (fold e; lia). fold e.
     replace (pos + Z.of_nat o + 1) with ((pos + Z.of_nat e) + Z.of_nat (o - e) + 1) by lia.
     rewrite IH; [reflexivity| |]; rewrite skipn_length; lia.
@@ -202,7 +213,7 @@ Proof.
   destruct (skipn e s) as [|b' r'] eqn:Sk.
   - assert (length (skipn e s) = 0%nat) by now rewrite Sk. rewrite skipn_length in H.
     rewrite locate_in_line by (fold e; lia). reflexivity.
-  - rewrite (locate_next_line s) by (fold e; lia). fold e. rewrite Sk.
-    assert (length (skipn e s) = length (b' :: r')) by now rewrite Sk. rewrite skipn_length in H.
-    replace (length s - 1 - e)%nat with (length (b' :: r') - 1)%nat by lia. reflexivity.
+  - assert (length (skipn e s) = length (b' :: r')) by now rewrite Sk. rewrite skipn_length in H.
+    cbn [length] in H. rewrite (locate_next_line s) by (fold e; lia). fold e. rewrite Sk.
+    replace (length s - 1 - e)%nat with (length (b' :: r') - 1)%nat by (cbn [length]; lia). reflexivity.
 Qed.
